@@ -95,6 +95,28 @@ def check_props_file(relpath, workdir, tier):
     return res
 
 
+def check_props_files(relpaths, workdir, tier):
+    """several property files (e.g. a MathComp one and a Reals one): all must check; results are merged"""
+    if isinstance(relpaths, str):
+        return check_props_file(relpaths, workdir, tier)
+    res = None
+    for rp in relpaths:
+        r = check_props_file(rp, workdir, tier)
+        if res is None:
+            res = r
+            continue
+        res["ok"] = res["ok"] and r["ok"]
+        res["theorems"] += r["theorems"]
+        res["closed"] += r["closed"]
+        res["axioms"] = sorted(set(res["axioms"]) | set(r["axioms"]))
+        res["stderr"] = (res.get("stderr") or "") + (r.get("stderr") or "")
+        res["cmd"] += " ; " + r["cmd"]
+        if "coqchk" in r:
+            res["coqchk"] = (res.get("coqchk", "") + "\n" + r["coqchk"])[-3000:]
+            res["coqchk_ok"] = res.get("coqchk_ok", True) and r["coqchk_ok"]
+    return res
+
+
 def load_known():
     p = os.path.join(VERIF, "known_findings.json")
     return json.load(open(p)) if os.path.exists(p) else []
@@ -141,6 +163,9 @@ def run_cases(mod, descs, workdir, jobs=16):
     outs = [None] * len(terms)
     for i, o in zip(live, louts):
         outs[i] = o
+    if hasattr(mod, "post_model"):
+        # part of a model result that has to leave the log domain (e.g. a sum of exponentials) is combined here
+        outs = [(mod.post_model(rec["desc"], o) if o is not None else None) for rec, o in zip(recs, outs)]
     for rec, o in zip(recs, outs):
         rec["model"] = o
         if rec["impl_error"] is not None:
@@ -159,6 +184,8 @@ def run_cases(mod, descs, workdir, jobs=16):
         if cand:
             aouts, aerr, _ = gtlib.run_model([t for _, t in cand], os.path.join(workdir, "alt"), **mk)
             for (rec, _), o in zip(cand, aouts):
+                if o is not None and hasattr(mod, "post_model"):
+                    o = mod.post_model(rec["desc"], o)
                 if o is not None and rec["dis"] and not gtlib.compare(rec["obs"], o):
                     rec["dis"] = []
                     rec["model"] = o
@@ -213,7 +240,7 @@ def main(argv=None):
     # ---- 1. proof obligations
     ok_build, build_tail = build_coq(log)
     forb = check_forbidden()
-    pf = check_props_file(mod.PROPS_FILE, workdir, tier) if ok_build else dict(ok=False, theorems=[], closed=0, axioms=[], stderr=build_tail, cmd="make")
+    pf = check_props_files(mod.PROPS_FILE, workdir, tier) if ok_build else dict(ok=False, theorems=[], closed=0, axioms=[], stderr=build_tail, cmd="make")
     obligations = len(pf["theorems"])
     discharged = obligations if (pf["ok"] and ok_build and not forb) else 0
     proof_ok = ok_build and pf["ok"] and not forb and obligations > 0
